@@ -63,7 +63,7 @@ Cols == 1..NCols
 
 -----------------------------------------------------------------------------
 (* Honest matrices and corruption patterns                                 *)
-HEntry(s, r, c) == (((s * 7919 + r * 1009 + c * 131 + r * c * 17 + s * r * 31 + s * c * 57) % 1031) % 7) - 3
+HEntry(s, r, c) == (((s * 7919 + r * 1009 + c * 131 + r * c * 17 + s * r * 31 + s * c * 57 + r * r * 53 + c * c * r * 29) % 1031) % 7) - 3
 Honest(s, mm)   == [r \in 1..mm |-> [c \in Cols |-> HEntry(s, r, c)]]
 ZeroM(mm)       == [r \in 1..mm |-> [c \in Cols |-> 0]]
 Alt(x)          == IF x % 2 = 0 THEN 1 ELSE 0 - 1
